@@ -1,7 +1,7 @@
 use arc_swap::{ArcSwap, ArcSwapOption};
 use paste::paste;
 use std::sync::{
-    atomic::{AtomicUsize, Ordering as AtomicOrdering},
+    atomic::{AtomicBool, AtomicUsize, Ordering as AtomicOrdering},
     Arc,
 };
 
@@ -138,6 +138,7 @@ macro_rules! combine_impls {
                             let n_start = Arc::new(AtomicUsize::new(N));
                             let n_data = Arc::new(AtomicUsize::new(N));
                             let n_end = Arc::new(AtomicUsize::new(N));
+                            let ended = Arc::new(AtomicBool::new(false));
                             let vals: Arc<ArcSwap<($(Option<$T>,)+)>> =
                                 Arc::new(Default::default());
                             let source_talkbacks: Arc<($(ArcSwapOption<Source<$T>>,)+)> =
@@ -147,6 +148,7 @@ macro_rules! combine_impls {
                                     #[cfg(feature = "tracing")]
                                     let combine_span = combine_span.clone();
                                     let source_talkbacks = Arc::clone(&source_talkbacks);
+                                    let ended = Arc::clone(&ended);
                                     move |message| {
                                         instrument!(
                                             parent: &combine_span,
@@ -162,47 +164,49 @@ macro_rules! combine_impls {
                                             }
                                             Message::Pull => {
                                                 $(
-                                                    let source_talkback =
-                                                        source_talkbacks.$idx.load();
-                                                    let source_talkback = source_talkback
-                                                        .as_ref()
-                                                        .expect("source talkback not set");
-                                                    call!(
-                                                        source_talkback,
-                                                        Message::Pull,
-                                                        "to source {i}: {message:?}",
-                                                        i = $idx,
-                                                    );
+                                                    if ended.load(AtomicOrdering::Acquire) {
+                                                        return;
+                                                    }
+                                                    if let Some(source_talkback) =
+                                                        &*source_talkbacks.$idx.load()
+                                                    {
+                                                        call!(
+                                                            source_talkback,
+                                                            Message::Pull,
+                                                            "to source {i}: {message:?}",
+                                                            i = $idx,
+                                                        );
+                                                    }
                                                 )+
                                             }
                                             Message::Error(ref error) => {
+                                                ended.store(true, AtomicOrdering::Release);
                                                 $(
-                                                    let source_talkback =
-                                                        source_talkbacks.$idx.load();
-                                                    let source_talkback = source_talkback
-                                                        .as_ref()
-                                                        .expect("source talkback not set");
-                                                    call!(
-                                                        source_talkback,
-                                                        Message::Error(Arc::clone(error)),
-                                                        "to source {i}: {message:?}",
-                                                        i = $idx,
-                                                    );
+                                                    if let Some(source_talkback) =
+                                                        source_talkbacks.$idx.swap(None)
+                                                    {
+                                                        call!(
+                                                            source_talkback,
+                                                            Message::Error(Arc::clone(error)),
+                                                            "to source {i}: {message:?}",
+                                                            i = $idx,
+                                                        );
+                                                    }
                                                 )+
                                             }
                                             Message::Terminate => {
+                                                ended.store(true, AtomicOrdering::Release);
                                                 $(
-                                                    let source_talkback =
-                                                        source_talkbacks.$idx.load();
-                                                    let source_talkback = source_talkback
-                                                        .as_ref()
-                                                        .expect("source talkback not set");
-                                                    call!(
-                                                        source_talkback,
-                                                        Message::Terminate,
-                                                        "to source {i}: {message:?}",
-                                                        i = $idx,
-                                                    );
+                                                    if let Some(source_talkback) =
+                                                        source_talkbacks.$idx.swap(None)
+                                                    {
+                                                        call!(
+                                                            source_talkback,
+                                                            Message::Terminate,
+                                                            "to source {i}: {message:?}",
+                                                            i = $idx,
+                                                        );
+                                                    }
                                                 )+
                                             }
                                         }
@@ -210,7 +214,27 @@ macro_rules! combine_impls {
                                 }
                                 .into(),
                             );
+                            let stop_all: Arc<dyn Fn() + Send + Sync> = Arc::new({
+                                let source_talkbacks = Arc::clone(&source_talkbacks);
+                                move || {
+                                    $(
+                                        if let Some(source_talkback) =
+                                            source_talkbacks.$idx.swap(None)
+                                        {
+                                            call!(
+                                                source_talkback,
+                                                Message::Terminate,
+                                                "to source {i}: {message:?}",
+                                                i = $idx,
+                                            );
+                                        }
+                                    )+
+                                }
+                            });
                             $(
+                                if ended.load(AtomicOrdering::Acquire) {
+                                    return;
+                                }
                                 call!(
                                     [<source_ $idx>],
                                     Message::Handshake(Arc::new(
@@ -218,6 +242,8 @@ macro_rules! combine_impls {
                                             #[cfg(feature = "tracing")]
                                             let combine_span = combine_span.clone();
                                             let sink = Arc::clone(&sink);
+                                            let ended = Arc::clone(&ended);
+                                            let stop_all = Arc::clone(&stop_all);
                                             let n_start = Arc::clone(&n_start);
                                             let n_data = Arc::clone(&n_data);
                                             let n_end = Arc::clone(&n_end);
@@ -232,6 +258,15 @@ macro_rules! combine_impls {
                                                 trace!("from source {i}: {message:?}", i = $idx);
                                                 match message {
                                                     Message::Handshake(source) => {
+                                                        if ended.load(AtomicOrdering::Acquire) {
+                                                            call!(
+                                                                source,
+                                                                Message::Terminate,
+                                                                "to source {i}: {message:?}",
+                                                                i = $idx,
+                                                            );
+                                                            return;
+                                                        }
                                                         source_talkbacks.$idx.store(Some(source));
                                                         let n_start = n_start
                                                             .fetch_sub(1, AtomicOrdering::AcqRel)
@@ -281,10 +316,33 @@ macro_rules! combine_impls {
                                                     Message::Pull => {
                                                         panic!("source must not pull");
                                                     }
-                                                    Message::Error(_) | Message::Terminate => {
-                                                    let n_end = n_end
-                                                        .fetch_sub(1, AtomicOrdering::AcqRel)
-                                                        - 1;
+                                                    Message::Error(error) => {
+                                                        source_talkbacks.$idx.store(None);
+                                                        if n_start.swap(0, AtomicOrdering::AcqRel) != 0 {
+                                                            // not all members have greeted yet: the
+                                                            // sink must be greeted before it is failed
+                                                            call!(
+                                                                sink,
+                                                                Message::Handshake(Arc::clone(
+                                                                    &talkback
+                                                                )),
+                                                                "to sink: {message:?}"
+                                                            );
+                                                        }
+                                                        if !ended.swap(true, AtomicOrdering::AcqRel) {
+                                                            stop_all();
+                                                            call!(
+                                                                sink,
+                                                                Message::Error(error),
+                                                                "to sink: {message:?}"
+                                                            );
+                                                        }
+                                                    }
+                                                    Message::Terminate => {
+                                                        source_talkbacks.$idx.store(None);
+                                                        let n_end = n_end
+                                                            .fetch_sub(1, AtomicOrdering::AcqRel)
+                                                            - 1;
                                                         if n_end == 0 {
                                                             call!(
                                                                 sink,
